@@ -304,7 +304,12 @@ def run_c05(rep, tier):
     # every symbol of a sequence is boosted on its own
     for c in (call('make_sequence', 'ABCDEFGHIJKLMNO', symbol_count=2), call('make_sequence', gen.alnum(r, 31), symbol_count=2),
               call('make_sequence', gen.digits(r, 77), symbol_count=3), call('make_sequence', gen.latin1(r, 41), version=1, error='L'),
-              call('make_sequence', gen.alnum(r, 45), symbol_count=4, error='M'), call('make_sequence', gen.latin1(r, 29), symbol_count=3, boost_error=False)):
+              call('make_sequence', gen.alnum(r, 45), symbol_count=4, error='M'), call('make_sequence', gen.latin1(r, 29), symbol_count=3, boost_error=False),
+              # the single-symbol shortcut of make_sequence (content fits one symbol of the requested version): level and boosting as for make()
+              call('make_sequence', 'Hello', version=5, error='L', boost_error=False), call('make_sequence', 'Hello', version=5, boost_error=False),
+              call('make_sequence', 'Hello', version=5, error='M', boost_error=False), call('make_sequence', 'Hello', version=5, error='Q'),
+              call('make_sequence', gen.digits(r, 20), version=2, error='Q', boost_error=False), call('make_sequence', gen.alnum(r, 10), version=1, boost_error=False),
+              call('make_sequence', gen.latin1(r, 10), version=3), call('make_sequence', gen.kanji(r, 4), version=2, error='M', boost_error=False)):
         so = symobs.observe_sequence_symbols(c, props=['C05'])
         for o in so:
             o['exp']['parts'] = o['exp']['parts'][:1]
